@@ -16,7 +16,7 @@ P = {
     'C01': ('model_checking', 'every mutator from every layout (start x size) with every argument is executed on the real type and TLC checks contents, length flags, return value and payloads of each recorded call against the abstract bounded deque; per-transition agreement from every layout gives all finite histories by induction', '7'),
     'C02': ('model_checking', 'push/try_push at both ends from every layout, identity-tracked elements: returned element, Err iff full, unchanged buffer on Err', '7'),
     'C03': ('model_checking', 'ledger in the contract: every element is in exactly one place after every call, destructor runs = exactly what the call destroys, nothing alive at scenario end; all panic-free scenarios incl. every drain / iterator consumption script', '7'),
-    'C04': ('model_checking', 'the same scenario set is replayed with unoccupied slots overwritten (0x00/0xFF/0x5A, stale elements, copies of live elements) and with layouts reached by different histories; any touched garbage is an event the contract has no clause for', '7'),
+    'C04': ('model_checking', 'the same scenario set is replayed with unoccupied slots overwritten (0x00/0xFF/0x5A, stale elements, copies of live elements) and with layouts reached by different histories; any touched garbage is an event the contract has no clause for; groups of behaviours with equal logical contents must give equal canonical digests; on u8 buffers the Hasher transcript, ==, cmp, Debug and clone() are compared with a fresh buffer of equal contents', '7'),
     'C05': ('model_checking', 'every destructor invocation of every element-destroying call is made to panic once (enumerated by TLC on L1); contract: never a second destructor run, valid buffer afterwards, follow-up calls behave', '7'),
     'C06': ('model_checking', 'every clone / closure / iterator invocation of every call running user code is made to panic once; contract: valid buffer, no double drop, nothing created is leaked once the buffer is dropped', '7'),
     'C07': ('model_checking', 'after every call the full accessor table (get, nth_*, front/back, index, iter, range, as_slices and all _mut forms, positions 0..len+1 and usize::MAX) is recorded with element addresses; TLC checks every row against the abstract sequence and the slot map', '7'),
@@ -26,12 +26,12 @@ P = {
     'C11': ('model_checking', 'panic iff documented (range/drain bounds incl. Included/Excluded(usize::MAX), swap, index); every other call returns for every argument incl. usize::MAX and capacity 0; unchanged contents after a documented panic; a process that dies or hangs is attributed to its scenario', '7'),
     'C12': ('model_checking', 'from array (all lengths 0..2N+1), from_iter, new/default/boxed: contents, destroyed prefix, ids', '7'),
     'C13': ('model_checking', 'spec/Observers.tla: TLC proves for every pair of physical states (capacities 0..3 x 0..3 quick / 0..4 thorough, every front position, length and two-letter contents on both sides) that the segment-wise PartialEq alignment, PartialEq<[U]>, iteration order and hash feed equal the functions of the two abstract sequences; every pair is replayed on the real type (==, !=, <, <=, >, >=, partial_cmp, cmp, hash, six slice/array/reference forms, Debug under eleven formatter flag sets) and each result validated against the contract', '7'),
-    'C14': ('model_checking', 'write/read/fill_buf/consume/flush from every layout with every length (write 0..2N+1, destination 0..N+2, consume 0..N+2 and usize::MAX) enumerated by TLC on the I/O family of L1, replayed on CircularBuffer<N,u8> with garbage in unoccupied bytes, plus seeded random interleavings at larger capacities; each call validated against the byte-stream clauses of the contract', '7'),
+    'C14': ('model_checking', 'write/read/fill_buf/consume/flush from every layout with every length (write 0..2N+1, destination 0..N+2, consume 0..N+2 and usize::MAX) enumerated by TLC on the I/O family of L1, replayed on CircularBuffer<N,u8> with garbage in unoccupied bytes, plus the provided methods read_exact, read_to_end, read_to_string (UTF-8 characters straddling the wrap point, invalid text), read_until, read_vectored, write_all, write_vectored, write_fmt; plus seeded random interleavings at larger capacities; each call validated against the byte-stream clauses of the contract', '7'),
     'C15': ('other', 'spec/Borrow.tla is a machine over client programs (create view / use view / &self call / &mut self call / move) with the crate borrow contract as its guard; TLC enumerates all programs up to 4 (thorough: 5) statements, checks the aliasing-XOR-mutation theorem on them and classifies them; every legal program must compile and every single-conflict program must be rejected by the borrow checker when instantiated with the concrete methods (accept / reject witness crates built against the current tree); variance, const-ness, Iter: Clone and the Send/Sync table are rows of a static contract table with one accept or reject witness each. rustc is the oracle; the specification supplies the enumeration. This is partly outside the family: static type facts have no transition content', '7'),
     'C16': ('model_checking', 'the C14 scenario set replayed through embedded_io and embedded_io_async trait methods (and std::io in the same build) in three builds (embedded-io, embedded-io-async, both); one contract for all families => same counts, bytes, contents; futures polled once must be Ready; a build failure of a configuration is a violation', '7'),
-    'C17': ('model_checking', 'allocation counter of a counting global allocator sampled around every recorded call; contract clause allocs = 0 except boxed/to_vec', '7'),
+    'C17': ('model_checking', 'allocation counter of a counting global allocator sampled around every recorded call; contract clause allocs = 0 except boxed/to_vec; includes the byte-stream unit with the provided std::io methods a crate may override (read_exact, read_to_end, read_to_string, read_until, read_vectored, write_all, write_vectored, write_fmt). The build sentence of the property is outside any model: the library is built with default features off and with only alloc, and the crates it links against are read from the rlib metadata (core only / core + alloc)', '7'),
     'C18': ('model_checking', 'the complete scenario sets of the other checks (all behaviours without fault, all with an injected fault, the observer pairs) are replayed in a nightly build with --features unstable: every trace must be accepted by the same contract and the digest of the property-level projection (results, contents, panics, element lifecycle callbacks) of every scenario must equal that of the default build', '7'),
-    'C19': ('model_checking', 'three layers: Apalache decides the add_mod lemma and the scalar inductive step (invariant, no overflow/underflow/division by zero, indices and slice ranges in bounds, back-fill loop <= 3 iterations) for ALL capacities <= 2^64-1 symbolically (spec/WordArith.tla, spec/Shape.tla, with refuted sanity mutants); TLC checks the full mechanism at a 3-bit word where position arithmetic really wraps; the enumerated behaviours are replayed with a destructor-counting ZST on the real capacities usize::MAX, usize::MAX-1, 2^63+1, 2^63, 2^63-1, 2^32+1, 2^32, 2^32-1 with fronts near 0 and near N and validated against the length/flag/result/destructor-count clauses of the contract', '7'),
+    'C19': ('model_checking', 'three layers: Apalache decides the add_mod lemma and the scalar inductive step (invariant, no overflow/underflow/division by zero, indices and slice ranges in bounds, back-fill loop <= 3 iterations) for ALL capacities <= 2^64-1 symbolically (spec/WordArith.tla, spec/Shape.tla, with refuted sanity mutants); TLC checks the full mechanism at a 3-bit word where position arithmetic really wraps; the enumerated behaviours are replayed with a destructor-counting ZST on the real capacities usize::MAX, usize::MAX-1, 2^63+1, 2^63, 2^63-1, 2^32+1, 2^32, 2^32-1 with fronts near 0 and near N (mutators, accessors, drain, range/range_mut/iter/iter_mut with consumption scripts) and validated against the length/flag/result/destructor-count clauses of the contract', '7'),
     'C20': ('model_checking', 'relocations measured from element addresses before/after each call; contract bounds per operation (<= 2, len-i for remove, len-j for drain, 0 for make_contiguous on contiguous contents)', '7'),
 }
 
